@@ -136,8 +136,8 @@ Verdict(c) ==   \* <<ok?, expected-not-logged, logged-not-expected, #expected ro
               keys == {"fi", "ci", "sp", "rp", "rpb", "cells", "cells0", "rows"}
               diff == {k \in keys : Fy[k] # Rx[k]}
               gap == {k \in {"fi", "sp", "rows", "rp"} : HasPart(k) /\ Fy[k] # Ex[k]}
-          IN IF diff # {} THEN LET k == CHOOSE k \in diff : TRUE IN <<FALSE, <<k>> \o Pick(Rx[k] \ Fy[k]), <<k>> \o Pick(Fy[k] \ Rx[k]), Cardinality(Ex.rows) + Cardinality(Ex.rp), 0>>
-             ELSE IF gap # {} THEN LET k == CHOOSE k \in gap : TRUE IN <<FALSE, <<"MODELGAP", k>> \o Pick(Ex[k] \ Fy[k]), <<"MODELGAP", k>> \o Pick(Fy[k] \ Ex[k]), Cardinality(Ex.rows) + Cardinality(Ex.rp), 0>>
+          IN IF diff # {} THEN LET k == CHOOSE k \in diff : TRUE IN <<FALSE, <<k, Pick(Rx[k] \ Fy[k])>>, <<k, Pick(Fy[k] \ Rx[k])>>, Cardinality(Ex.rows) + Cardinality(Ex.rp), 0>>
+             ELSE IF gap # {} THEN LET k == CHOOSE k \in gap : TRUE IN <<FALSE, <<k, Pick(Ex[k] \ Fy[k])>>, <<k, Pick(Fy[k] \ Ex[k])>>, Cardinality(Ex.rows) + Cardinality(Ex.rp), 0, "gap">>
              ELSE <<TRUE, <<>>, <<>>, Cardinality(Ex.rows) + Cardinality(Ex.rp), 0>>
      [] Part = "c5" ->   \* C05: every call returned normally and every reported offset is valid (judged from the raw byte offsets)
           LET Valid(k, a, b) == LET t == Texts[k] IN a >= 0 /\ a <= b /\ b <= ByteLen(t) /\ IsBoundary(t, a) /\ IsBoundary(t, b)
@@ -174,7 +174,7 @@ Step ==
               /\ UNCHANGED <<nexcl, ncerr>>
               /\ IF v[1] THEN nok' = nok + 1 /\ UNCHANGED nrej
                  ELSE /\ nrej' = nrej + 1 /\ UNCHANGED nok
-                      /\ Emit(IF v[2] # <<>> /\ v[2][1] = "MODELGAP" THEN "MODELGAP" ELSE "REJECT", [id |-> c.id, pat |-> c.pat, ast |-> c.ast, ng |-> c.ng, bl |-> c.bl, part |-> Part,
+                      /\ Emit(IF Len(v) >= 6 THEN "MODELGAP" ELSE "REJECT", [id |-> c.id, pat |-> c.pat, ast |-> c.ast, ng |-> c.ng, bl |-> c.bl, part |-> Part,
                                          expected_not_logged |-> v[2], logged_not_expected |-> v[3]])
 Done == /\ l = Len(Rec) + 1 /\ l' = l + 1
         /\ Emit("STATS", [records |-> Len(Rec), ok |-> nok, rejected |-> nrej, excluded |-> nexcl, cerr |-> ncerr,
